@@ -8,8 +8,13 @@ SRC="$1"; SID="$2"; PID="$3"; WK="$4"
 if [ -f /verif/seeded/$SID/meta.json ] && grep -q '"confirmed"' /verif/seeded/$SID/meta.json; then
   # already confirmed earlier: only (re-)try the check
   if [ -d /tmp/lab/w$WK/verif ]; then /verif/tools/lab.sh w$WK sync; else /verif/tools/lab.sh w$WK >/dev/null; fi
-  RES=$(env -u CARGO_TARGET_DIR /verif/tools/lab.sh w$WK try "/verif/seeded/$SID/patch.diff" "$PID" | tr '\n' ' ' | sed 's/KNOWN-FINDING[^V\[]*//g' | cut -c1-1500)
-  echo "$SID retry check: $RES" >> /verif/tmp/seedres.txt
+  # the original patch first, then rebased copies (newest first): the first one that applies to the lab's revision is tried
+  for P in /verif/seeded/$SID/patch.diff $(ls -t /verif/seeded/$SID/patch_rebased_*.diff 2>/dev/null); do
+    RES=$(env -u CARGO_TARGET_DIR /verif/tools/lab.sh w$WK try "$P" "$PID" | tr '\n' ' ' | sed 's/KNOWN-FINDING[^V\[]*//g' | cut -c1-1500)
+    case "$RES" in *"patch does not apply"*) continue ;; esac
+    break
+  done
+  echo "$SID retry ($(basename $P)) check: $RES" >> /verif/tmp/seedres.txt
   exit 0
 fi
 W=/tmp/seedcheck/wt$WK; export CARGO_TARGET_DIR=/tmp/seedcheck/target$WK CARGO_NET_OFFLINE=true
